@@ -144,7 +144,10 @@ def check(case, rec):
     src_gmd = {a: gmd_payloads(t.group_metadata(a))
                for a in ("observation", "sample")}
     with tempfile.TemporaryDirectory(prefix="vf-c01-", dir=TMP) as d:
-        path = os.path.join(d, "t.biom")
+        # (an HDF5 file is one by content, whatever it is called)
+        names = ["t.biom", "t.biom", "t.h5", "otu_table.txt", "t.json",
+                 "table.tsv", "t"]
+        path = os.path.join(d, names[len(case["generated_by"]) % len(names)])
         write(t, path, case)
         after_write = observe.snapshot(t)
         if after_write != src:
